@@ -13,7 +13,7 @@ from vlib.runner import HarnessError, Mismatch, drive
 PROP = "C02"
 LEVEL = "exploration"
 WORKERS = {"quick": 4, "thorough": 16}
-BUDGET = {"quick": 60, "thorough": 500}
+BUDGET = {"quick": 100, "thorough": 500}
 TECHNIQUE = "Hypothesis job sets with constructed id-prefix collisions x op orders; model dict + tree snapshots + every prefix length"
 LEVEL_TEXT = (
     "Generated-input/history search: job sets (including families built to share id prefixes of length 1-4) and orders "
